@@ -491,6 +491,7 @@ func hunt(o Opts) {
 		Failure    string `json:"failure"`
 		At         int    `json:"at"`
 		Case       Case   `json:"case"`
+		MCase      *MCase `json:"mcase,omitempty"`
 		Tried      int    `json:"tried"`
 		Exhaustive int    `json:"exhaustive_tried"`
 		MaxDim     int    `json:"exhaustive_max_dim"`
@@ -503,11 +504,19 @@ func hunt(o Opts) {
 		c.Outs = nil
 		r.Case = c
 	}
+	reportM := func(c MCase) {
+		c = shrinkM(c)
+		f, at := propCheckM(c)
+		r.Found, r.Failure, r.At = true, f, at
+		c.Outs = nil
+		r.MCase = &c
+	}
 	done := false
 	if o.Replay != "" {
 		if b, err := os.ReadFile(o.Replay); err == nil {
 			var rp struct {
-				Cases []Case `json:"cases"`
+				Cases  []Case  `json:"cases"`
+				MCases []MCase `json:"mcases"`
 			}
 			json.Unmarshal(b, &rp)
 			for _, c := range rp.Cases {
@@ -516,6 +525,16 @@ func hunt(o Opts) {
 					report(c)
 					done = true
 					break
+				}
+			}
+			for _, c := range rp.MCases {
+				if done {
+					break
+				}
+				r.Tried++
+				if f, _ := propCheckM(c); f != "" {
+					reportM(c)
+					done = true
 				}
 			}
 		}
@@ -551,6 +570,18 @@ func hunt(o Opts) {
 			}
 		}
 	}
+	if !done {
+		rng := NewRng(o.Seed + 15485863)
+		for k := 0; k < o.N/2 && !done; k++ {
+			tn := typeNames[k%len(typeNames)]
+			c, _ := genMCase(rng.Split(), tn, nil)
+			r.Tried++
+			if f, _ := propCheckM(c); f != "" {
+				reportM(c)
+				done = true
+			}
+		}
+	}
 	b, _ := json.MarshalIndent(r, "", " ")
 	os.MkdirAll(o.Out, 0755)
 	os.WriteFile(o.Out+"/hunt.json", b, 0644)
@@ -576,6 +607,42 @@ func known(o Opts) {
 		_, pd := w.execOne(Op{Op: "VEquals", A: Ref{false, 0}, B: Ref{false, 0}, X: 0})
 		out = append(out, kf{"C03-EQEPS0", len(ps) == 1 && len(pd) == 1 && ps[0] == 1 && pd[0] == 0,
 			fmt.Sprintf("x=[0]: sparse x.Equals(x, 0) = %v, dense x.Equals(x, 0) = %v", ps, pd)})
+	}
+	{
+		// C03-MDOTM-STALE: sparse MdotM adds the product to what the receiver held
+		run := func(sparse bool) []int64 {
+			w := &MWorld{World: World{Type: "float64"}}
+			if sparse {
+				w.execM(MOp{Op: "NewSM", L: []int64{0}, L2: []int64{7}, N: 1, M: 1})
+			} else {
+				w.execM(MOp{Op: "NewDM", L: []int64{7}, N: 1, M: 1})
+			}
+			w.execM(MOp{Op: "NewDM", L: []int64{2}, N: 1, M: 1})
+			w.execM(MOp{Op: "NewDM", L: []int64{3}, N: 1, M: 1})
+			w.execM(MOp{Op: "MdotM", MR: Ref{sparse, 0}, MA: Ref{false, len(w.DM) - 2}, MB: Ref{false, len(w.DM) - 1}})
+			_, _, l := readM(w.getm(Ref{sparse, 0}))
+			return l
+		}
+		d, s := run(false), run(true)
+		out = append(out, kf{"C03-MDOTM-STALE", len(d) == 1 && len(s) == 1 && d[0] == 6 && s[0] == 13,
+			fmt.Sprintf("r=[[7]], a=[[2]], b=[[3]]: dense r.MdotM(a,b) = %v, sparse r.MdotM(a,b) = %v", d, s)})
+	}
+	{
+		// C03-MEQ-ABSENT: sparse matrix Equals returns false wherever the receiver has no entry
+		run := func(sparse bool) []int64 {
+			w := &MWorld{World: World{Type: "float64"}}
+			if sparse {
+				w.execM(MOp{Op: "NewSM", L: []int64{}, L2: []int64{}, N: 1, M: 1})
+			} else {
+				w.execM(MOp{Op: "NewDM", L: []int64{0}, N: 1, M: 1})
+			}
+			w.execM(MOp{Op: "NewDM", L: []int64{1}, N: 1, M: 1})
+			_, p := w.execM(MOp{Op: "MEquals", MA: Ref{sparse, 0}, MB: Ref{false, len(w.DM) - 1}, X: 5})
+			return p
+		}
+		d, s := run(false), run(true)
+		out = append(out, kf{"C03-MEQ-ABSENT", len(d) == 1 && len(s) == 1 && d[0] == 1 && s[0] == 0,
+			fmt.Sprintf("a=[[0]], b=[[1]], epsilon=2.5: dense a.Equals(b) = %v, sparse a.Equals(b) = %v", d, s)})
 	}
 	b, _ := json.MarshalIndent(out, "", " ")
 	os.MkdirAll(o.Out, 0755)
